@@ -170,7 +170,7 @@ def _compare_nodes(np, grid, g, recx, recg, nodes, bad, tag, tol=1e-10):
     is_modal = a.shape[-2:] == tuple(grid.modal_shape) and nodes[sname]['form'] == 'modal'
     if is_modal:
       a, b = np.asarray(grid.to_nodal(jnp.asarray(a))), np.asarray(grid.to_nodal(jnp.asarray(b)))
-    if a.shape[-2:] != tuple(grid.nodal_shape):
+    if a.shape[-2:] != tuple(grid.nodal_shape) or a.size == 0:       # (no inner boundaries on a single layer)
       continue
     ga = g.nodal(a)
     sc = max(np.abs(a).max(), np.abs(b).max(), 1e-300)
